@@ -262,7 +262,8 @@ type Peer struct {
 	WireErr         *WireError        // first hard (framing/format) error; decoding of this connection stopped there
 	Soft            []*WireError      // reason-code / property-whitelist objections; decoding continued
 	OpenedAt        int
-	ClosedAt        int // step at which the connection was observed closed (-1 while open)
+	ClosedAt        int  // step at which the connection was observed closed (-1 while open)
+	LeftOpen        bool // at the end of the run: the handler has returned but the broker never closed the connection
 	ClosedByHarness bool
 	Connack         *refmqtt.Packet
 	nextPID         uint16
@@ -543,6 +544,12 @@ func Execute(c *Case, extraHooks ...mqtt.Hook) *Run {
 
 // finish shuts the broker's connections down and, for runs on a store, closes and removes the store.
 func (r *Run) finish() {
+	// a handler that has returned must have closed its connection (every exit path of attachClient stops the client)
+	for _, p := range r.Peers {
+		if p.Link != nil && p.Link.Done() && !p.Link.Conn.BrokerClosed() {
+			p.LeftOpen = true
+		}
+	}
 	r.B.Shutdown()
 	if r.StoreDir != "" {
 		_ = r.B.S.Close() // stops the hooks, which closes the store
